@@ -47,8 +47,10 @@ Proved here
 | S26 | 373 | skip_ws | `while current() == WHITESPACE | NEWLINE` |
 
 `self.tokens.pop()` at l.139 is matched (`Some`/`None`), not unwrapped: not a panic site (`popErr`).
-The six sites guarded by `peek_past_ws()` (S5, S8, S10, S16, S20) and the one guarded by the caller (S1)
+The five sites guarded by `peek_past_ws()` (S5, S8, S10, S16, S20) and the one guarded by the caller (S1)
 are the ones where the emptiness check is not syntactically next to the `bump()`.
+`peek_past_ws()` (l.377-387) indexes `self.tokens[i]` only with `i < len` and `current()` uses `last()`:
+neither can panic, both are pure, and the twins use the model's `peekPastWs` / `cur` for them.
 -/
 set_option linter.unusedVariables false
 set_option linter.unusedSimpArgs false
